@@ -2,7 +2,7 @@
 
 use std::any::type_name;
 use std::num::NonZero;
-use std::sync::atomic::{AtomicBool, AtomicU64, Ordering};
+use std::sync::atomic::{self, AtomicBool, AtomicU64, Ordering};
 use std::sync::{Arc, Mutex};
 use std::thread::{self, JoinHandle as ThreadJoinHandle};
 use std::{fmt, mem, panic};
@@ -176,6 +176,11 @@ impl PoolInner {
         // new handles to the list, as they would be leaked. Instead, we join
         // them immediately.
         if self.shutdown.load(Ordering::Acquire) {
+            // The shutdown sequence may have signaled the existing processor states before the
+            // state of this processor existed, in which case nobody has told the workers we
+            // just created to exit. Signal them ourselves or the join below waits forever.
+            state.signal_shutdown();
+
             for handle in new_handles {
                 #[cfg(folo_verif)]
                 crate::verif::point("ens.join", u64::from(processor_id));
@@ -205,6 +210,10 @@ impl PoolInner {
 
         #[cfg(folo_verif)]
         crate::verif::event("shutdown_stored", 0, 0);
+
+        // Pairs with the fence in `Scheduler::enqueue()`: a scheduler that obtains a processor
+        // state we do not see below is guaranteed to see the shutdown flag set above.
+        atomic::fence(Ordering::SeqCst);
 
         // Signal all existing workers to exit.
         self.registry.signal_shutdown_all();
@@ -245,6 +254,14 @@ impl PoolInner {
                 panic::resume_unwind(payload);
             }
         }
+
+        #[cfg(folo_verif)]
+        crate::verif::point("d.drain", 0);
+
+        // No worker is left to execute what is still queued. Drop those tasks now so that
+        // their join handles complete as "abandoned" instead of staying pending for as long as
+        // some scheduler keeps the pool's internals alive.
+        self.registry.abandon_queued_tasks();
     }
 }
 
